@@ -288,6 +288,30 @@ def sar_unit(u: Unit):
     u.cover("sar.cover", ps, lambda p: p.kind == "return")
 
 
+SAR_TRANSITIONS_REPLAY = lambda w: {"code": """
+import numpy as np
+from pyxel.models.readout_electronics.sar_adc import apply_sar_adc
+from pyxel.models.readout_electronics.sar_adc_with_noise import apply_sar_adc_with_noise
+VIOLATED, DETAIL = False, 'zero noise reproduces the plain converter at, just below and just above every code transition'
+for bits in (8, 12):
+    for vmax in (10.0, 3.3, 5.0, 1.8, 2.5):
+        k = np.arange(1, 2 ** bits, dtype=float)
+        t = k * vmax / 2 ** bits
+        volts = np.concatenate([np.nextafter(t, 0.0), t, np.nextafter(t, np.inf), [0.0, vmax, np.nextafter(vmax, 0.0)]])
+        n = int(np.ceil(len(volts) / 64.0)) * 64
+        sig = np.zeros(n); sig[:len(volts)] = volts; sig = sig.reshape(-1, 64)
+        plain = apply_sar_adc(signal_2d=sig.copy(), num_rows=sig.shape[0], num_cols=64, min_volt=0.0, max_volt=vmax, adc_bits=bits)
+        noisy = apply_sar_adc_with_noise(signal_2d=sig.copy(), num_rows=sig.shape[0], num_cols=64, strengths=np.zeros(bits), noises=np.zeros(bits), max_volt=vmax, adc_bits=bits)
+        bad = np.argwhere(np.asarray(plain) != np.asarray(noisy))
+        if len(bad):
+            i, j = bad[0]
+            VIOLATED, DETAIL = True, f'{bits} bits, range maximum {vmax}: {len(bad)} of {len(volts)} voltages differ, e.g. V={sig[i, j]!r}: plain {plain[i, j]} zero-noise {noisy[i, j]}'
+            break
+    if VIOLATED: break
+""", "expect": "apply_sar_adc_with_noise with zero strengths and noises gives the codes of apply_sar_adc (binary64, all transitions of 8 and 12 bit converters, five range maxima: BOUNDED)"}
+STANDIN = {r"sar_noise": SAR_TRANSITIONS_REPLAY}
+
+
 @unit("C16", "sar_noise")
 def sar_noise_unit(u: Unit):
     """Zero noise (all strengths and noises 0): the noisy variant computes the same specification
